@@ -123,19 +123,23 @@ impl DynamicTypeItem {
             Err(_) => return None
         };
 
-        for (_, group) in config.types.iter() {
-            for (_, target_dynamic_type) in group.iter() {
-                
-                if target_dynamic_type.names.contains(&target_type) {
-                    let source_type = match group.get(&target_index) {
-                        Some(source_type) => source_type,
-                        None => return None
-                    };
-                    return Some((Self::calculate_unit(config, number, source_type.clone(), target_dynamic_type.clone(), group)?, target_dynamic_type.clone()));
-                }
+        /* Only the family on the other side of the conversion can hold the target type */
+        let other_group_name = match type_conversion.source.name == source_type.group_name {
+            true => &type_conversion.target.name,
+            false => &type_conversion.source.name
+        };
+
+        let group = config.types.get(other_group_name)?;
+        for (_, target_dynamic_type) in group.iter() {
+            if target_dynamic_type.names.contains(&target_type) {
+                let source_type = match group.get(&target_index) {
+                    Some(source_type) => source_type,
+                    None => return None
+                };
+                return Some((Self::calculate_unit(config, number, source_type.clone(), target_dynamic_type.clone(), group)?, target_dynamic_type.clone()));
             }
         }
-        
+
         None
     }
 }
